@@ -58,6 +58,49 @@ def replay_ai(job, obl, inputs, workdir):
     return rc == 1, out
 
 
+REPLAY_DESTROY = r'''
+// Native replay for the destructor obligation: the REAL router; a connector is created and deleted inside one pending transaction (so it was
+// never processed and is not "active"); the next processTransaction() must not touch it.  A quarantining allocator poisons freed blocks.
+#include "libavoid/libavoid.h"
+#include <cstdio>
+#include <cstdlib>
+#include <cstring>
+#include <csignal>
+#include <new>
+static const size_t QN = 4096; static void *quarantine[QN]; static size_t qsize[QN]; static size_t qn = 0;
+void *operator new(size_t n) { size_t *p = (size_t *) malloc(n + 16); if (!p) throw std::bad_alloc(); p[0] = n; return (char *) p + 16; }
+void operator delete(void *q) noexcept { if (!q) return; size_t *p = (size_t *)((char *) q - 16); memset(q, 0xF5, p[0]); if (qn < QN) { quarantine[qn] = p; qsize[qn++] = p[0]; } }
+void *operator new[](size_t n) { return operator new(n); }
+void operator delete[](void *q) noexcept { operator delete(q); }
+static void onsig(int) { printf("REPRODUCED: the router used a connector after it was deleted (signal during processTransaction)\n"); fflush(stdout); _exit(1); }
+int main() {
+  using namespace Avoid;
+  signal(SIGSEGV, onsig); signal(SIGBUS, onsig); signal(SIGABRT, onsig);
+  Router *router = new Router(OrthogonalRouting);
+  Rectangle r(Point(0, 0), Point(10, 10)); new ShapeRef(router, r);
+  ConnRef *a = new ConnRef(router, ConnEnd(Point(-20, 5)), ConnEnd(Point(40, 5)));
+  router->processTransaction();
+  ConnRef *b = new ConnRef(router, ConnEnd(Point(-20, 30)), ConnEnd(Point(40, 30)));   // queued, not yet processed
+  router->deleteConnector(b);                                                            // deleted inside the same pending transaction
+  router->processTransaction();
+  // poisoned memory written to by the router?
+  int bad = 0;
+  for (size_t k = 0; k < qn; ++k) { unsigned char *q = (unsigned char *) quarantine[k] + 16; for (size_t i = 0; i < qsize[k]; ++i) if (q[i] != 0xF5) { bad++; break; } }
+  (void) a;
+  if (bad) { printf("REPRODUCED: %d freed block(s) were written to after the deletion\n", bad); return 1; }
+  printf("not reproduced\n"); return 0;
+}
+'''
+
+
+def replay_destroy(job, obl, inputs, workdir):
+    lib = build_lib("libavoid", workdir)
+    rc, out = native_run(REPLAY_DESTROY, workdir, "replay_destroy", extra=["-I", COLA], libs=[lib], timeout=300)
+    if rc is None:
+        return False, out
+    return rc == 1, out
+
+
 def jobs(tier):
     js = []
     base = "#include <verif_base.h>\n"
@@ -133,6 +176,40 @@ def jobs(tier):
                   unwind=nmax + 2, bound="at most %d blocks (unwind %d, unwinding assertions on)" % (nmax, nmax + 2), slices=[cl],
                   domain="every deleted/live pattern over at most %d distinct heap blocks" % nmax,
                   expect=[r'h_blocks_cleanup\.assertion', r'unwind'], timeout=600))
+    # ---------------- ConnRef::~ConnRef: whatever state the connector is in (routed or not yet processed), its destructor purges the router's
+    #                  queue of pending actions of every entry for this object -- otherwise the next transaction acts on freed memory
+    dt = slice_func("libavoid/connector.cpp", r'^ConnRef::~ConnRef\(\)', "ConnRef::~ConnRef")
+    _, dt_body = body_of(dt.text)
+    dt_sl = Slice("ConnRef::~ConnRef [body]", dt.rel, dt_body, dt.line, kind="function-body")
+    n_del = len(re.findall(r'\bdelete\s+', strip_comments(dt_body)))
+    dt_text = subst(dt_sl, [(r'\bdelete\s+([^;]+);', r'w_note(9, (void *)(\1));   /* delete: the object is handed back (its own destructor is not part of this obligation) */', n_del),
+                            (r'\berr_printf\(', 'verif_ignore(', len(re.findall(r'\berr_printf\(', dt_body))), (r'\babort\(\);', '{ verif_thrown = 1; return; }', 1)])
+    dt_cxx = ("#include <verif_base.h>\n#include <vector>\n"
+              'extern "C" { void w_note(int what, void *obj); void w_purge(void *router, void *obj); }\nstatic void verif_ignore(const char *, ...) {}\n'
+              "namespace Avoid {\nclass ConnRef; class VertInf;\n"
+              "// stand-ins: every call the destructor makes on another object forwards to the harness (w_note), the purge to w_purge\n"
+              "struct VerifRerouteFlags { void removeConn(ConnRef *c) { w_note(1, (void *)c); } };\n"
+              "struct VerifVertices { void removeVertex(VertInf *v) { w_note(2, (void *)v); } };\n"
+              "class Router { public: bool m_currently_calling_destructors; VerifRerouteFlags m_conn_reroute_flags; VerifVertices vertices;\n"
+              "    void removeObjectFromQueuedActions(const void *object) { w_purge((void *)this, (void *)object); } };\n"
+              "class VertInf { public: void removeFromGraph(const bool isConnVert = true) { w_note(3, (void *)this); } };\n"
+              "class ConnEnd { public: void disconnect(const bool shapeDeleted = false) { w_note(4, (void *)this); } void freeActivePin(void) { w_note(5, (void *)this); } };\n"
+              "// the data members the destructor touches, with their real types (connector.h); the class has many more\n"
+              "class ConnRef { public: Router *m_router; VertInf *m_src_vert; VertInf *m_dst_vert; ConnEnd *m_src_connend; ConnEnd *m_dst_connend; bool m_active;\n"
+              "    std::vector<VertInf *> m_checkpoint_vertices;\n"
+              "    void freeRoutes(void) { w_note(6, (void *)this); } void makeInactive(void) { w_note(7, (void *)this); } void verif_destructor_body(); };\n"
+              "void ConnRef::verif_destructor_body()\n{" + dt_text + "}\n}\n"
+              "static Avoid::ConnRef verif_conn; static Avoid::Router verif_router; static Avoid::VertInf verif_v[4]; static Avoid::ConnEnd verif_e[2]; static Avoid::VertInf *verif_cpv[2];\n"
+              'extern "C" void w_destroy(int active, int hasSrcV, int hasDstV, int hasSrcE, int hasDstE, unsigned ncp) {\n'
+              "  verif_router.m_currently_calling_destructors = true; verif_conn.m_router = &verif_router; verif_conn.m_active = active != 0;\n"
+              "  verif_conn.m_src_vert = hasSrcV ? &verif_v[0] : 0; verif_conn.m_dst_vert = hasDstV ? &verif_v[1] : 0; verif_conn.m_src_connend = hasSrcE ? &verif_e[0] : 0; verif_conn.m_dst_connend = hasDstE ? &verif_e[1] : 0;\n"
+              "  verif_cpv[0] = &verif_v[2]; verif_cpv[1] = &verif_v[3]; verif_conn.m_checkpoint_vertices._d = verif_cpv; verif_conn.m_checkpoint_vertices._n = ncp; verif_conn.m_checkpoint_vertices._cap = 2;\n"
+              "  verif_conn.verif_destructor_body(); }\n"
+              'extern "C" void *verif_conn_addr(void) { return (void *)&verif_conn; }\nextern "C" void *verif_router_addr(void) { return (void *)&verif_router; }\n')
+    js.append(Job("ConnRef_destructor_purges_queue", "U", spec, "h_destroy", cxx=dt_cxx, defines=["JOB_destroy"], slices=[dt], unwind=4, replay=replay_destroy,
+                  flags=["--sat-solver", "cadical"], backend="sat:cadical",
+                  domain="every state of the connector: active or not, with or without each end vertex / end point, 0 to 2 checkpoint vertices",
+                  expect=[r'h_destroy\.assertion']))
     # ---------------- safety-class obligations of the other properties' contract jobs (counted here, owned there)
     for pid in ("C05", "C16", "C01", "C20"):
         m = _mod(pid)
@@ -161,6 +238,8 @@ ASSUMPTIONS = [
     "mostViolated: element dereferences unchecked (--no-pointer-check, DESIGN 2.9); Blocks::cleanup is a bounded stand-in (listed under 'bounded', not counted)",
     "deliberately not demanded: initialisation of ActionInfo::newPosition.x/y in constructors whose action types never read it (Point() leaves them unset by design)",
     "NOT decided (residue, most of C15): histories of API calls, ownership across router/shape/pin/connector lifetimes, leaks at teardown, termination, every function not under contract",
+    "ConnRef_destructor_purges_queue: the destructor's body with every callee behind a stand-in that forwards to the harness; `delete x` replaced by a note; it decides only that "
+    "removeObjectFromQueuedActions(this) is called exactly once in every state of the connector, not what the callees do",
 ]
 EXPLANATION = ("Memory-safety, initialisation and internal-assertion obligations of the functions under contract: ActionInfo's six constructors determine every scalar "
                "field Router::processActions reads; IncSolver::mostViolated indexes its list in bounds for every length (loop contract); Blocks::cleanup compacts and frees "
